@@ -45,6 +45,22 @@ instance : Max RatBot := ⟨fun a b => match a.v, b.v with
 instance : OfNat RatBot 0 := ⟨⟨some 0⟩⟩
 instance : OfNat RatBot 1 := ⟨⟨some 1⟩⟩
 
+/-- a NON-commutative closed semiring for the driver: finite languages of strings of length ≤ 3
+(union, concatenation truncated at the length bound, Kleene star) — the "user semiring" of the
+path-solver checks.  Canonical form: sorted, duplicate-free. -/
+structure LangW where
+  l : List String
+deriving DecidableEq, Repr, Inhabited
+def LangW.bound : Nat := 3
+def LangW.canon (xs : List String) : LangW :=
+  ⟨((xs.filter fun s => s.length ≤ LangW.bound).eraseDups).mergeSort (fun a b => decide (a ≤ b))⟩
+instance : Add LangW := ⟨fun a b => LangW.canon (a.l ++ b.l)⟩
+instance : Mul LangW := ⟨fun a b => LangW.canon (a.l.flatMap fun u => b.l.map fun v => u ++ v)⟩
+instance : Zero LangW := ⟨⟨[]⟩⟩
+instance : One LangW := ⟨⟨[""]⟩⟩
+def LangW.star (a : LangW) : LangW :=
+  (List.range (LangW.bound + 1)).foldl (fun acc _ => 1 + a * acc) 1
+
 /-- closed-semiring star where the model needs one (partial: `none` = undefined/divergent) -/
 class HasStar (K : Type) where
   star : K → Option K
@@ -52,6 +68,7 @@ class HasStar (K : Type) where
 instance : HasStar Rat := ⟨fun x => if x = 1 then none else some (1 / (1 - x))⟩
 instance : HasStar BoolW := ⟨fun _ => some 1⟩
 instance : HasStar MaxT := ⟨fun x => if x.v ≤ 1 then some 1 else none⟩
+instance : HasStar LangW := ⟨fun x => some x.star⟩
 
 /-- multiplicative inverse where the model needs one (`V[i] ** (-1)` in `push`) -/
 class HasInv (K : Type) where
@@ -59,5 +76,6 @@ class HasInv (K : Type) where
 instance : HasInv Rat := ⟨fun x => if x = 0 then none else some (1 / x)⟩
 instance : HasInv BoolW := ⟨fun x => if x.b then some 1 else none⟩
 instance : HasInv MaxT := ⟨fun x => if x.v = 0 then none else some ⟨1 / x.v⟩⟩
+instance : HasInv LangW := ⟨fun _ => none⟩
 
 end Genlm
